@@ -1,8 +1,11 @@
 CONSTANTS
   MaxClients = 4
   MaxOpts = 3
+  MaxPool = 5
   Dev_SharedDefaultAck = FALSE
+  Dev_OptionCapturesToken = FALSE
   Concrete = TRUE
+  Family = "free"
   Emit = TRUE
   Samples = 2000
   FromFile = FALSE
@@ -10,6 +13,7 @@ INIT InitSample
 NEXT Next
 INVARIANT InvTypes
 INVARIANT InvDefaultPristine
+INVARIANT InvOwnToken
 INVARIANT InvHelloOwn
 PROPERTY InvIsolation
 CHECK_DEADLOCK FALSE
